@@ -280,15 +280,24 @@ func execOp(c *Ctx, line string) (out string) {
 			}
 		}
 		if r == 0 && c.Owns("C10.entry") {
-			var u roman.Number
-			eu := u.UnmarshalText(append([]byte(nil), in...))
-			typed := true
-			if eu != nil {
-				typed, _ = romanPE(eu)
+			// the receiver holds a non-zero sentinel, so that a call that decodes nothing (or skips the assignment for the
+			// zero value) is visible; the empty text is passed as a nil slice and as an empty non-nil one
+			const sentinel = roman.Number(987654321)
+			datas := [][]byte{append([]byte(nil), in...)}
+			if len(in) == 0 {
+				datas = [][]byte{nil, {}, make([]byte, 0, 8)}
 			}
-			if ou := romanOutcome(u, eu); ou != o1 || !typed {
-				c.Fail("C10.entry", line, "UnmarshalText: %s (typed %v), DefaultParser: %s", ou, typed, o1)
-				return "MISMATCH-entry " + o1 + " / " + ou
+			for _, data := range datas {
+				u := sentinel
+				eu := u.UnmarshalText(data)
+				typed := true
+				if eu != nil {
+					typed, _ = romanPE(eu)
+				}
+				if ou := romanOutcome(u, eu); ou != o1 || !typed || eu != nil && u != sentinel {
+					c.Fail("C10.entry", line, "UnmarshalText (nil data: %v) onto a receiver holding %d: %s (typed %v, receiver now %d), DefaultParser: %s", data == nil, uint64(sentinel), ou, typed, uint64(u), o1)
+					return "MISMATCH-entry " + o1 + " / " + ou
+				}
 			}
 		}
 		return o1
@@ -562,12 +571,17 @@ func execOp(c *Ctx, line string) (out string) {
 				return "NONZERO " + out1
 			}
 		}
+		const sizeSentinel = size.Size(9876543210987) // non-zero receiver: a decode that assigns nothing (e.g. for 0 B) is visible
 		if r == size.DefaultRule&size.RuleDisableUnit && c.Owns("C08.entry") {
-			var u size.Size
+			u := sizeSentinel
 			eu := u.UnmarshalText(append([]byte(nil), in...))
 			typed := true
 			if eu != nil {
 				typed, _ = sizePE(eu)
+				if u != sizeSentinel {
+					c.Fail("C08.entry", line, "UnmarshalText returned %v and changed the receiver to %d", eu, uint64(u))
+					return "MISMATCH-entry " + out1 + " / receiver changed"
+				}
 			}
 			if ou := sizeOutcome(u, eu); ou != out1 || !typed {
 				c.Fail("C08.entry", line, "UnmarshalText: %s (typed %v), DefaultParser: %s", ou, typed, out1)
@@ -575,11 +589,15 @@ func execOp(c *Ctx, line string) (out string) {
 			}
 		}
 		if r == size.DefaultRule && c.Owns("C12.entry") {
-			var u size.Size
+			u := sizeSentinel
 			eu := u.UnmarshalJSON(append([]byte(nil), in...))
 			typed := true
 			if eu != nil {
 				typed, _ = sizePE(eu)
+				if u != sizeSentinel {
+					c.Fail("C12.entry", line, "UnmarshalJSON returned %v and changed the receiver to %d", eu, uint64(u))
+					return "MISMATCH-entry " + out1 + " / receiver changed"
+				}
 			}
 			if ou := sizeOutcome(u, eu); ou != out1 || !typed {
 				c.Fail("C12.entry", line, "UnmarshalJSON: %s (typed %v), DefaultParser: %s", ou, typed, out1)
@@ -631,11 +649,16 @@ func execOp(c *Ctx, line string) (out string) {
 			}
 		}
 		if r == 0 && c.Owns("C05.entry") {
-			var u uu.ID
+			sentinel := uu.ID{Higher: 0x1111222233334444, Lower: 0x5555666677778888} // non-zero: a call that assigns nothing is visible
+			u := sentinel
 			eu := u.UnmarshalText(append([]byte(nil), in...))
 			typed := true
 			if eu != nil {
 				typed, _ = uuPE(eu)
+				if u != sentinel {
+					c.Fail("C05.entry", line, "UnmarshalText returned %v and changed the receiver to %v", eu, u)
+					return "MISMATCH-entry " + o1 + " / receiver changed"
+				}
 			}
 			if ou := uuOutcome(u, eu); ou != o1 || !typed {
 				c.Fail("C05.entry", line, "UnmarshalText: %s (typed %v), DefaultParser: %s", ou, typed, o1)
